@@ -167,7 +167,9 @@ def run_property(prop, tier, seed, only=None, keep=False, jobs=None, no_replay=F
             h, crate, scratch, tdir = args
             gb = gate.acquire(h.get("mem_gb", 6))
             try:
-                tmo = h.get("timeout", 300)
+                # registered timeouts were measured on an idle machine; the thorough tier runs for hours next to whatever else
+                # the machine does, so it allows twice the time before it gives a harness up as inconclusive
+                tmo = h.get("timeout", 300) * (2 if tier == "thorough" else 1)
                 r = pdbv.run_one(h, crate, scratch, tdir, tmo, h.get("mem_limit_gb", h.get("mem_gb", 6) * 2 + 8))
                 r["h"] = h
                 r["scratch"] = scratch
